@@ -21,8 +21,16 @@ DD(forbid, pforbid, plain) ==
        <<"c", <<"list", <<"int">> >>, <<"fac", L(<<>>)>>, <<>> >>,
        <<"d", <<"opt", <<"date">> >>, <<"val", None>>, <<>> >> >>,
     (IF forbid THEN << <<"forbid_extra_keys", TRUE>> >> ELSE <<>>) \o (IF plain THEN << <<"mixin", "plain">> >> ELSE <<>>) >>
+\* keyword-only fields may declare a defaulted field BEFORE a required one: "the first field in declaration order decides"
+KW == <<"dc", "KW", << <<"p", <<"int">>, <<"val", I(0)>>, << <<"kw_only", TRUE>> >> >>,
+                       <<"q", <<"date">>, <<"req">>, << <<"kw_only", TRUE>> >> >>,
+                       <<"r", <<"int">>, <<"val", I(1)>>, << <<"kw_only", TRUE>> >> >>,
+                       <<"s", <<"str">>, <<"req">>, << <<"kw_only", TRUE>> >> >> >>, <<>> >>
+KWInputs == { Dct(SelectSeq(<< <<S("p"), vp>>, <<S("q"), vq>>, <<S("r"), vr>>, <<S("s"), vs>> >>, LAMBDA pr : pr[2] # <<"absent">>))
+              : vp \in {I(3), S("garbage"), <<"absent">>}, vq \in {S("2024-01-02"), S("garbage"), <<"absent">>},
+                vr \in {I(4), L(<<>>), <<"absent">>}, vs \in {S("t"), <<"absent">>} }
 EE == <<"dc", "E", <<>>, <<>> >>
-Classes == { DD(f, pf, pl) : f \in BOOLEAN, pf \in BOOLEAN, pl \in BOOLEAN } \cup { EE, PP(TRUE), PP(FALSE) }
+Classes == { DD(f, pf, pl) : f \in BOOLEAN, pf \in BOOLEAN, pl \in BOOLEAN } \cup { EE, PP(TRUE), PP(FALSE), KW }
 
 Valid == << <<S("a"), I(1)>>, <<S("b"), Dct(<< <<S("x"), I(2)>>, <<S("y"), S("q")>> >>)>>,
             <<S("c"), L(<<I(1), I(2)>>)>>, <<S("d"), S("2024-01-02")>>, <<S("ee"), S("r")>> >>
@@ -50,7 +58,8 @@ FewKeys == { Dct(<< <<S("zz"), I(1)>> >>), Dct(<< <<S("a"), I(1)>>, <<S("zz"), I
 PInputs == { Dct(<< <<S("x"), I(2)>> >>), Dct(<< <<S("x"), S("bad")>> >>), Dct(<<>>), Dct(<< <<S("x"), I(1)>>, <<S("zz"), I(1)>> >>),
              Dct(<< <<S("y"), None>> >>), Dct(<< <<S("x"), None>>, <<S("y"), I(5)>> >>) }
 
-InputsFor(C) == NonDicts \cup FewKeys \cup (IF C[2] = "D" THEN DictInputs ELSE PInputs \cup { Dct(Valid) })
+InputsFor(C) == IF C[2] = "KW" THEN KWInputs \cup NonDicts
+                ELSE NonDicts \cup FewKeys \cup (IF C[2] = "D" THEN DictInputs ELSE PInputs \cup { Dct(Valid) })
 
 Init == T = <<"start">> /\ v = <<"nov">> /\ kind = "start"
 Next == \/ kind = "start" /\ T' \in Classes /\ v' = v /\ kind' = "type"
